@@ -399,6 +399,8 @@ class Model:
         Returns the reference probability of that outcome assignment."""
         R = self.ref
         _, entry, targets, sep, destr = a
+        if "mzi_phi" in self.tags:
+            self.tags = dict(self.tags, mzi_dirty=True)
         assign = {}
         for s, v in outcome_pairs:
             if R.alive(s) and s not in assign:
@@ -418,6 +420,9 @@ class Model:
         R = self.ref
         kind = a[0]
         exp = {}
+        if kind in ("op", "kraus") and "mzi_phi" in self.tags:
+            # the closed-form interferometer prediction only holds as long as nothing but structural calls follow
+            self.tags = dict(self.tags, mzi_dirty=True)
         if kind == "op":
             _, entry, targets, name, params = a
             op, ren = self.ref_operator(name, params, targets, world.impl_dims(targets))
